@@ -11,15 +11,28 @@ use std::any::Any;
 pub struct Bufs {
     pub pkt: Option<GuardBuf>,
     pub mbuff: Option<GuardBuf>,
+    /// adjacent placement: both buffers are windows into this one mapping
+    parent: Option<GuardBuf>,
 }
 
 impl Bufs {
     pub fn new(c: &Case) -> Bufs {
+        // adjacent placement (what `split_at_mut` on one buffer gives a caller): the metadata buffer
+        // directly below (1) or directly above (2) the packet, nothing in between
+        if c.adjacent != 0 && c.kind == Kind::Mbuff && !c.mbuff.is_empty() && !c.pkt.is_empty() {
+            let parent = GuardBuf::new(c.pkt.len() + c.mbuff.len(), c.end_aligned, false);
+            let (po, mo) = if c.adjacent == 1 { (c.mbuff.len(), 0) } else { (0, c.pkt.len()) };
+            let pkt = Some(GuardBuf::view(&parent, po, c.pkt.len()));
+            let mbuff = Some(GuardBuf::view(&parent, mo, c.mbuff.len()));
+            let b = Bufs { pkt, mbuff, parent: Some(parent) };
+            b.reset(c);
+            return b;
+        }
         let mk_mbuff = || if c.kind == Kind::Mbuff && !c.mbuff.is_empty() { Some(GuardBuf::new(c.mbuff.len(), !c.end_aligned, false)) } else { None };
         let early = if c.mbuff_first { mk_mbuff() } else { None };
         let pkt = if c.pkt.is_empty() { None } else { Some(GuardBuf::new(c.pkt.len(), c.end_aligned, false)) };
         let mbuff = if c.mbuff_first { early } else { mk_mbuff() };
-        let b = Bufs { pkt, mbuff };
+        let b = Bufs { pkt, mbuff, parent: None };
         b.reset(c);
         b
     }
@@ -56,7 +69,7 @@ impl Bufs {
         self.mbuff.as_ref().map(|p| p.as_slice().to_vec()).unwrap_or_default()
     }
     pub fn canaries_ok(&self) -> bool {
-        self.pkt.as_ref().map(|p| p.canary_ok()).unwrap_or(true) && self.mbuff.as_ref().map(|p| p.canary_ok()).unwrap_or(true)
+        self.parent.as_ref().map(|p| p.canary_ok()).unwrap_or(true) && self.pkt.as_ref().map(|p| p.canary_ok()).unwrap_or(true) && self.mbuff.as_ref().map(|p| p.canary_ok()).unwrap_or(true)
     }
 }
 
